@@ -9,7 +9,7 @@ NEEDS_CLI = True
 RULE = ("ops td.hash <document> -> (domain separator, message hash, digest), td.encode_type <types> <name> (hook), td.kind <type string> (hook): "
         "random type graphs (1..6 structs, members in random order, shared and repeated dependencies, self/mutual recursion through arrays, "
         "multi-dimensional fixed/dynamic arrays, every atomic type; primary type = first struct, any other struct, or EIP712Domain itself with a message of its own; EIP712Domain as a member type), values generated type-directed so documents are accepted; every permutation of "
-        "member order for dependency-bearing structs of <= 4 members; all atomic type strings; the three repo fixtures; equivalent JSON spellings of a sample (white space, \\uXXXX escapes in keys, type strings, values); "
+        "member order for dependency-bearing structs of <= 4 members; all atomic type strings; the three repo fixtures; sequences in one thread (op seq) of documents whose primary type is spelt identically while a dependency is defined differently; equivalent JSON spellings of a sample (white space, \\uXXXX escapes in keys, type strings, values); "
         "a random sample of the cases is re-run through every sub-command that reaches the same code (vlib/routes.py); non-trivial = distinct document whose primary type has >= 1 struct dependency; judge = executable EIP-712 spec (Spec.Eip712)")
 EXHAUSTIVE_SWEEPS = {"quick": ["all 24 member orders of the 4-member dependency witness", "all 100 atomic type strings (td.kind)"],
                      "thorough": ["all member orders of 40 random graphs with <= 4 members", "all 100 atomic type strings (td.kind)"]}
@@ -126,6 +126,34 @@ def gen(rng, tier):
         t = rng.choice(tdgen.ALL_ATOMS + ["A", "Foo"]) + "".join(rng.choice(["[]", "[1]", "[22]", "[0]"]) for _ in range(rng.randint(0, 8)))
         cases.append(Case("td.kind " + hx(t), tags=("kind-arrays",), nontrivial=False))
     cases.append(Case("td.kind " + hx("uint8" + "[]" * 64), tags=("kind-arrays",), nontrivial=False))
+    # sequences in one thread (op seq): a document, then a document whose primary type is spelt identically while a type it
+    # refers to (directly or further down) is defined differently, then the first again — type hashes, encodeType strings
+    # and dependency sets belong to the document, not to the process
+    from vlib.core import seq_line
+    def doc_of(types, prim):
+        return tdgen.dumps({"types": tdgen.types_json(types, [("name", "string")]), "primaryType": prim, "domain": {"name": "x"},
+                            "message": tdgen.rand_value(rng, types, prim)})
+    for _ in range(40 if tier == "thorough" else 12):
+        types = tdgen.rand_graph(rng, rng.randint(2, 5))
+        prim = next(iter(types))
+        deps = [n_ for n_ in types if n_ != prim]
+        victim = rng.choice(deps)
+        t2 = {k: list(v) for k, v in types.items()}
+        how = rng.randrange(3)
+        if how == 0 and len(t2[victim]) > 1:
+            t2[victim] = list(reversed(t2[victim]))
+        elif how == 1:
+            t2[victim] = t2[victim] + [("extra_", rng.choice(["uint8", "string", "bool"]))]
+        else:
+            nm, ty = t2[victim][0]
+            t2[victim][0] = (nm, "bytes32" if not ty.startswith("bytes32") else "uint256")
+        a, b = doc_of(types, prim), doc_of(t2, prim)
+        cases.append(Case(seq_line(["td.hash " + hx(a), "td.hash " + hx(b), "td.hash " + hx(a)]), tags=("sequence", "dependency-redefined")))
+        tj1, tj2 = json.dumps(tdgen.types_json(types, [("name", "string")])), json.dumps(tdgen.types_json(t2, [("name", "string")]))
+        cases.append(Case(seq_line(["td.encode_type %s %s" % (hx(tj1), hx(prim)), "td.encode_type %s %s" % (hx(tj2), hx(prim)), "td.encode_type %s %s" % (hx(tj1), hx(prim))]),
+                          tags=("sequence", "dependency-redefined")))
+    mail2 = MAIL.replace('"Person":[{"name":"name","type":"string"},{"name":"wallet","type":"address"}]', '"Person":[{"name":"wallet","type":"address"},{"name":"name","type":"string"}]')
+    cases.append(Case(seq_line(["td.hash " + hx(MAIL), "td.hash " + hx(mail2), "td.hash " + hx(MAIL)]), tags=("sequence", "fixture")))
     # equivalent JSON spellings of accepted documents (white space, escapes in keys, type strings and values)
     from vlib import jsonspell
     pool = [c for c in cases if c.line.startswith("td.hash ") and c.tags[0] in ("random", "fixture", "perm-witness", "recursive")]
